@@ -191,7 +191,98 @@ pub fn check(pa: &MP, pb: &MP, op: Operation, loc: &mut Local) -> Vec<String> {
     cl
 }
 
+// ------------------------------------------------------------------------------------------------
+// single precision: the input events of the near-collinear apex fans of C10 (integer coordinates, exact in
+// f32, coordinate differences inexact in f32). The exact angular order is well defined; the f32 instantiation
+// must realise it. Only the orderings are judged here (no intersection is computed by fill_queue).
+// ------------------------------------------------------------------------------------------------
+
+pub fn fan_order_case(k: usize, swapped: bool) -> Vec<String> {
+    use geo_booleanop::boolean::fill_queue::fill_queue;
+    use geo_booleanop::boolean::sweep_event::SweepEvent;
+    use geo_booleanop::boolean::BoundingBox;
+    let (a, b) = super::c10::fan(k);
+    let (a, b) = if swapped { (b, a) } else { (a, b) };
+    let (a32, b32) = (to32(&a), to32(&b));
+    let inf = f32::INFINITY;
+    let mut sb = BoundingBox { min: geo_types::Coord { x: inf, y: inf }, max: geo_types::Coord { x: -inf, y: -inf } };
+    let mut cb = sb;
+    let q = fill_queue(&a32.0, &b32.0, &mut sb, &mut cb, Operation::Union);
+    let evs: Vec<Rc<SweepEvent<f32>>> = q.iter().cloned().collect();
+    let pt = |e: &Rc<SweepEvent<f32>>| -> P { (e.point.x as f64, e.point.y as f64) };
+    let opt = |e: &Rc<SweepEvent<f32>>| -> P { pt(&e.get_other_event().unwrap()) };
+    let ref_before = |x: &Rc<SweepEvent<f32>>, y: &Rc<SweepEvent<f32>>| -> bool {
+        let (px, py) = (pt(x), pt(y));
+        if px.0 != py.0 {
+            return px.0 < py.0;
+        }
+        if px.1 != py.1 {
+            return px.1 < py.1;
+        }
+        if x.is_left() != y.is_left() {
+            return !x.is_left();
+        }
+        let (l, r) = if x.is_left() { (px, opt(x)) } else { (opt(x), px) };
+        let s = orient(l, r, opt(y));
+        if s != 0.0 {
+            return s > 0.0;
+        }
+        x.is_subject && !y.is_subject
+    };
+    let mut cl: Vec<String> = vec![];
+    let mut add = |s: &str| {
+        let c = format!("C15 f32 fan: {s}");
+        if !cl.contains(&c) {
+            cl.push(c);
+        }
+    };
+    for i in 0..evs.len() {
+        for j in 0..evs.len() {
+            if i == j {
+                continue;
+            }
+            let c = evs[i].cmp(&evs[j]);
+            if c == O::Equal {
+                add("event order Equal for distinct events");
+            }
+            if c != evs[j].cmp(&evs[i]).reverse() {
+                add("event order not antisymmetric");
+            }
+            if (c == O::Greater) != ref_before(&evs[i], &evs[j]) {
+                add("event order disagrees with the exact angular reference order");
+            }
+        }
+    }
+    let lefts: Vec<&Rc<SweepEvent<f32>>> = evs.iter().filter(|e| e.is_left()).collect();
+    for &s in &lefts {
+        for &t in &lefts {
+            if Rc::ptr_eq(s, t) {
+                continue;
+            }
+            let (sa, sb2) = ((pt(s), opt(s)), (pt(t), opt(t)));
+            if sa.0 .0.max(sb2.0 .0) > sa.1 .0.min(sb2.1 .0) {
+                continue;
+            }
+            let c = compare_segments(s, t);
+            if c != compare_segments(t, s).reverse() {
+                add("segment order not antisymmetric");
+            }
+            if !proper_cross(sa, sb2) {
+                if let Some(a_below) = vertical_order(sa, sb2) {
+                    if (c == O::Less) != a_below {
+                        add("segment order disagrees with the exact vertical order");
+                    }
+                }
+            }
+        }
+    }
+    cl
+}
+
 pub fn replay(case: &Value, verbose: bool) -> Vec<String> {
+    if case["kind"] == "fan" {
+        return fan_order_case(case["k"].as_u64().unwrap() as usize, case["swapped"].as_bool().unwrap());
+    }
     let mut loc = Local::default();
     let (pa, pb, _) = operands_of_case(case, verbose);
     let mut cl = vec![];
@@ -234,6 +325,16 @@ pub fn run(tier: &str) -> i32 {
     sweep_pairs(&st, "C15", &fams, &tables, &|pa, pb, op, _tol, _, loc| {
         check(pa, pb, op, loc)
     });
+    st.family(&format!("f32: input events of the {} near-collinear apex fans (x 2 operand orders): Ord and compare_segments against the exact angular / vertical order", super::c10::N_FANS));
+    for k in 0..super::c10::N_FANS {
+        for sw in [false, true] {
+            st.state(true);
+            st.trans(1);
+            for c in fan_order_case(k, sw) {
+                st.violation(&c, format!("fan:{k}:{sw}:{c}"), json!({"prop": "C15", "kind": "fan", "k": k, "swapped": sw}));
+            }
+        }
+    }
     let f = Family::new("O21");
     st.sample(json!({"family": "O21", "a_mask": 165, "b_mask": 90, "A": hex(&f.m[165]), "B": hex(&f.m[90]), "note": "four edges of each operand meet in the centre points: many events share a point", "ops": "all four"}));
     finish(
